@@ -515,6 +515,29 @@ pub fn classify_case(c: &Case) -> Result<(String, bool), crate::engine::Fail> {
             if !exp.applicable.is_empty() && !exp.applicable.contains(&k) {
                 return Err(crate::engine::Fail { sig: format!("C11/{ep}/wrong_error/{}", short_class(&class)), msg: format!("{ep} on input class [{class}] returned Err({text}); documented for this class: one of {:?}", exp.applicable) });
             }
+            // the numbers carried by the error describe the offending input
+            let inner = text.split_once('(').map(|(_, r)| r.trim_end_matches(')').to_string()).unwrap_or_default();
+            let fields: Vec<String> = inner.split(',').map(|f| f.trim().to_string()).collect();
+            let ok = match k {
+                EK::TooFewSamples => {
+                    // the size of (one of) the sample(s) given, or the population of a quantile request
+                    let got = fields.first().and_then(|f| f.parse::<u64>().ok());
+                    let m = c.a.len().min(c.b.len()) as u64;
+                    got.map(|g| g == c.a.len() as u64 || g == c.b.len() as u64 || g == c.n || (!c.b.is_empty() && g == m)).unwrap_or(false)
+                }
+                EK::InvalidQuantile => {
+                    let got = fields.first().and_then(|f| f.parse::<f64>().ok());
+                    got.map(|g| g.to_bits() == c.q.0.to_bits() || (g.is_nan() && c.q.0.is_nan()) || (g == 0.0 && c.q.0 == 0.0)).unwrap_or(false)
+                }
+                EK::DifferentSampleSizes => {
+                    let got: Vec<u64> = fields.iter().filter_map(|f| f.parse::<u64>().ok()).collect();
+                    got == vec![c.a.len() as u64, c.b.len() as u64]
+                }
+                _ => true,
+            };
+            if !ok {
+                return Err(crate::engine::Fail { sig: format!("C11/{ep}/error_payload/{k:?}"), msg: format!("{ep} on input class [{class}] (sample sizes {} / {}, n = {}, q = {:?}) returned Err({text}): the payload does not describe the input", c.a.len(), c.b.len(), c.n, c.q.0) });
+            }
             Ok((format!("{label} | err {k:?}"), nontrivial))
         }
     }
@@ -623,6 +646,12 @@ pub fn enumerate() -> Vec<Case> {
         datas.push(base.clone());
         datas.push(vec![1e200, 2e200, 3e200]);
         datas.push(vec![1e-200, 2e-200, 3e-200]);
+        // squares (and hence variances) in the subnormal range: 2^-512 … 2^-536 (f32: 2^-64 … 2^-74)
+        for e in if f32_ { vec![-62, -64, -68, -73] } else { vec![-510, -512, -520, -530, -536] } {
+            let s = crate::fl::pow2(e);
+            datas.push(vec![s, 2.0 * s, 3.0 * s]);
+            datas.push(vec![6.0 * s, 5.0 * s, 7.0 * s, 6.5 * s]);
+        }
         datas.push((0..12).map(|i| i as f64 + 0.5).collect());
         let cast = |v: &Vec<f64>| -> Vec<X> { v.iter().map(|&x| X(if f32_ { (x as f32) as f64 } else { x })).collect() };
         for ep in EPS.iter().filter(|e| is_float_ep(e)) {
